@@ -4,6 +4,7 @@ package p2p
 
 import (
 	"net"
+	"sync"
 	"time"
 
 	"github.com/bitcoin-sv/block-headers-service/config"
@@ -90,3 +91,21 @@ func (v *VerifServer) Sync() *p2psync.SyncManager { return v.S.syncManager }
 
 // ConnectedCount is the server's own peer count query.
 func (v *VerifServer) ConnectedCount() int32 { return v.S.ConnectedCount() }
+
+// verifStates maps a running server to its peer handler's private peerState (stored by a
+// one-line overlay rewrite of peerHandler).
+var verifStates sync.Map
+
+// Banned reports the server's ban table as host -> remaining seconds (negative = run out but
+// not yet removed). Only to be called while the peer handler is idle (synctest.Wait).
+func (v *VerifServer) Banned() map[string]int {
+	out := map[string]int{}
+	st, ok := verifStates.Load(v.S)
+	if !ok {
+		return out
+	}
+	for h, end := range st.(*peerState).banned {
+		out[h] = int(time.Until(end) / time.Second)
+	}
+	return out
+}
